@@ -577,10 +577,13 @@ Theorem compose_C11_ts_track_component :
 Proof. exact cmp_ts_track_lemma. Qed.
 Print Assumptions compose_C11_ts_track_component.
 
+(* the payload codec must be shorter than 2^32 bytes for EVERY record of the type (a guard of refine_ts_track), which
+   wm_anno_payload is not; cmp_anno_enc a = if rf_len (wm_anno_payload a) <? 2^32 then wm_anno_payload a else [] agrees with it on
+   every annotation that fits *)
 Example compose_C11_ts_track_example :
   JLS_TRACK_TYPE_ANNOTATION < 4 /\ (forall s, length (rt_anno_encS s) = 16%nat) /\ (2 <= 10)%nat /\
   16 + 16 * N.of_nat 10 < 4294967296 /\
-  Forall (fun a => rf_len (wm_anno_payload a) < 4294967296) rx_annos /\
+  (forall a, rf_len (cmp_anno_enc a) < 4294967296) /\ map cmp_anno_enc rx_annos = map wm_anno_payload rx_annos /\
   rt_fresh JLS_TRACK_TYPE_ANNOTATION 10 rx_tx0 /\ (length rx_annos < 10 ^ 15)%nat /\
   StronglySorted Z.le (map an_ts rx_annos) /\
   length (tw_disk (ts_file anno ts_anno_sum an_ts ts_anno_summ 10 rx_annos)) = 33%nat /\
